@@ -111,7 +111,7 @@ func c19wFilterNS(tags []string, ns map[string]bool) []string {
 }
 
 func c19wVary(rt *rapid.T, s string) string {
-	switch rapid.IntRange(0, 11).Draw(rt, "vary") {
+	switch gInt(rt, 0, 11, "vary") {
 	case 0:
 		return strings.ToUpper(s)
 	case 1:
@@ -134,7 +134,7 @@ func c19wGenTags(rt *rapid.T, rs []string, foreign []string) []string {
 	case "drop": // drop one reserved tag
 		keep()
 		if len(out) > 0 {
-			k := rapid.IntRange(0, len(out)-1).Draw(rt, "drop")
+			k := gInt(rt, 0, len(out)-1, "drop")
 			out = append(out[:k:k], out[k+1:]...)
 		}
 	case "add": // add a namespaced tag which the target does not have
@@ -153,17 +153,17 @@ func c19wGenTags(rt *rapid.T, rs []string, foreign []string) []string {
 	case "replace": // replace the value of a reserved tag
 		keep()
 		if len(out) > 0 {
-			k := rapid.IntRange(0, len(out)-1).Draw(rt, "repl")
+			k := gInt(rt, 0, len(out)-1, "repl")
 			out[k] = gPick(rt, foreign, "foreign")
 		}
 	}
-	n := rapid.IntRange(0, 4).Draw(rt, "nplain")
+	n := gInt(rt, 0, 4, "nplain")
 	for i := 0; i < n; i++ {
-		switch x := rapid.IntRange(0, 99).Draw(rt, "pk"); {
+		switch x := gInt(rt, 0, 99, "pk"); {
 		case x < 60:
 			out = append(out, c19wVary(rt, gPick(rt, c19wPlain, "plain")))
 		case x < 70 && len(out) > 0: // duplicate, maybe in another case
-			d := out[rapid.IntRange(0, len(out)-1).Draw(rt, "dup")]
+			d := out[gInt(rt, 0, len(out)-1, "dup")]
 			if gPct(rt, 50) {
 				d = strings.ToUpper(d) + " "
 			}
@@ -175,14 +175,14 @@ func c19wGenTags(rt *rapid.T, rs []string, foreign []string) []string {
 			out = append(out, gPick(rt, foreign, "foreign"))
 		}
 	}
-	if rapid.IntRange(0, 39).Draw(rt, "many") == 23 { // more than the count limit
+	if gInt(rt, 0, 39, "many") == 23 { // more than the count limit
 		for i := 0; i < 18; i++ {
 			out = append(out, fmt.Sprintf("t%02d", i))
 		}
 	}
 	// order must not matter
 	if len(out) > 1 && gPct(rt, 50) {
-		k := rapid.IntRange(1, len(out)-1).Draw(rt, "rot")
+		k := gInt(rt, 1, len(out)-1, "rot")
 		out = append(append([]string(nil), out[k:]...), out[:k]...)
 	}
 	if out == nil {
@@ -221,7 +221,7 @@ func c19wGen(rt *rapid.T) c19wProg {
 				tags = append(tags, nst[n])
 			}
 		}
-		for k, n := 0, rapid.IntRange(0, 3).Draw(rt, "nseed"); k < n; k++ {
+		for k, n := 0, gInt(rt, 0, 3, "nseed"); k < n; k++ {
 			tg := gPick(rt, c19wPlain, "seedplain")
 			dup := false
 			for _, x := range tags {
@@ -261,7 +261,7 @@ func c19wGen(rt *rapid.T) c19wProg {
 				tags = append(tags, tg)
 			}
 		}
-		for j, n := 0, rapid.IntRange(0, 2).Draw(rt, "ngrp"); j < n; j++ {
+		for j, n := 0, gInt(rt, 0, 2, "ngrp"); j < n; j++ {
 			tg := gPick(rt, c19wPlain, "grpplain")
 			dup := false
 			for _, x := range tags {
@@ -299,19 +299,19 @@ func c19wGen(rt *rapid.T) c19wProg {
 	// ---- queries
 	term := func(u int) string {
 		var t string
-		switch x := rapid.IntRange(0, 99).Draw(rt, "tk"); {
+		switch x := gInt(rt, 0, 99, "tk"); {
 		case x < 34:
 			t = gPick(rt, c19wPlain, "qplain")
 		case x < 48: // a namespaced tag the searcher was given
 			t = c19wUserNSTags(u)[gPick(rt, c19wNSOrder, "ownns")]
 		case x < 66: // somebody else's
 			if gPct(rt, 30) {
-				t = gPick(rt, grpNS[rapid.IntRange(0, 1).Draw(rt, "qg")], "grpns")
+				t = gPick(rt, grpNS[gInt(rt, 0, 1, "qg")], "grpns")
 			} else {
-				t = c19wUserNSTags(rapid.IntRange(0, 3).Draw(rt, "other"))[gPick(rt, c19wNSOrder, "otherns")]
+				t = c19wUserNSTags(gInt(rt, 0, 3, "other"))[gPick(rt, c19wNSOrder, "otherns")]
 			}
 		case x < 92: // look-alikes subject to rewriting
-			j := rapid.IntRange(0, 3).Draw(rt, "whose")
+			j := gInt(rt, 0, 3, "whose")
 			if gPct(rt, 35) {
 				j = u
 			}
@@ -338,7 +338,7 @@ func c19wGen(rt *rapid.T) c19wProg {
 			sb.WriteString(term(u))
 		}
 		q := sb.String()
-		if rapid.IntRange(0, 39).Draw(rt, "mangle") == 17 {
+		if gInt(rt, 0, 39, "mangle") == 17 {
 			q = gPick(rt, []string{`"` + q, q + ",", q + `"`, "," + q}, "how")
 		}
 		return q
@@ -363,11 +363,11 @@ func c19wGen(rt *rapid.T) c19wProg {
 		p.Ops = append(p.Ops, wOp{K: "set", S: s, T: "fnd", H: map[string]any{"public": q}}, wOp{K: "get", S: s, T: "fnd", A: "sub"})
 	}
 	deadUser := map[int]bool{}
-	n := rapid.IntRange(8, 26).Draw(rt, "nops")
+	n := gInt(rt, 8, 26, "nops")
 	for i := 0; i < n; i++ {
-		s := rapid.IntRange(0, len(p.Sess)-1).Draw(rt, "s")
+		s := gInt(rt, 0, len(p.Sess)-1, "s")
 		u := p.Sess[s]
-		switch x := rapid.IntRange(0, 99).Draw(rt, "opk"); {
+		switch x := gInt(rt, 0, 99, "opk"); {
 		case x < 28: // search
 			q := query(u)
 			if gPct(rt, 78) {
@@ -379,7 +379,7 @@ func c19wGen(rt *rapid.T) c19wProg {
 		case x < 53: // account tags
 			p.Ops = append(p.Ops, wOp{K: "set", S: s, T: "me", A: "tags", X: c19wGenTags(rt, resUser(u), foreign)})
 		case x < 67: // group tags, by the owner or by somebody else
-			k := rapid.IntRange(0, 1).Draw(rt, "grp")
+			k := gInt(rt, 0, 1, "grp")
 			by := owners[k]
 			if gPct(rt, 30) {
 				by = s
@@ -395,7 +395,7 @@ func c19wGen(rt *rapid.T) c19wProg {
 		case x < 78:
 			p.Ops = append(p.Ops, wOp{K: "get", S: s, T: gPick(rt, []string{"me", "me", "g0", "g1"}, "tagsof"), A: "tags"})
 		case x < 88: // suspension / reinstatement, mostly by user 0 (root in most cases)
-			tgt := rapid.IntRange(1, 3).Draw(rt, "tgt")
+			tgt := gInt(rt, 1, 3, "tgt")
 			by := 0
 			if gPct(rt, 15) {
 				by = s
@@ -417,7 +417,7 @@ func c19wGen(rt *rapid.T) c19wProg {
 				}
 			}
 		case x < 91: // account deletion
-			tgt := rapid.IntRange(1, 3).Draw(rt, "deltgt")
+			tgt := gInt(rt, 1, 3, "deltgt")
 			by := 0
 			if gPct(rt, 30) {
 				by = sessOf(tgt)[0]
@@ -429,7 +429,7 @@ func c19wGen(rt *rapid.T) c19wProg {
 			p.Ops = append(p.Ops, wOp{K: "del", S: by, A: "user", U: tgt, F: gPct(rt, 25)})
 			probe(p.Seed[tgt], tgt)
 		case x < 95: // topic deletion
-			k := rapid.IntRange(0, 1).Draw(rt, "delgrp")
+			k := gInt(rt, 0, 1, "delgrp")
 			by := owners[k]
 			if gPct(rt, 20) {
 				by = s
